@@ -71,7 +71,8 @@ Record cfg := mkCfg {
   v_collect_case : bool }.         (* session._collect keeps the case of the names the engine reports *)
 
 (** user-facing programs *)
-Inductive selarg := SStr (x : name) | SCol (x : name) | SAlias (x a : name).
+Inductive selarg := SStr (x : name) | SCol (x : name) | SAlias (x a : name)
+| SItem (x : name).       (* df[x] / df.x : a reference through the DataFrame object *)
 Inductive op :=
 | OSelect (args : list selarg)
 | OWithColumn (n : name)                      (* withColumn(n, <expression over existing columns>) *)
@@ -87,7 +88,9 @@ Inductive op :=
 | OWhere (v : name)
 | OOrderBy (vs : list name)
 | OLimit
-| ODistinct.
+| ODistinct
+| OOrderByItems (vs : list name)                          (* orderBy(df[v] ...) *)
+| OJoinOn (rnames : list name) (l r : name).              (* join(other, df[l] == other[r], 'inner') *)
 
 Definition meth_of (o : op) : meth :=
   match o with
@@ -95,6 +98,7 @@ Definition meth_of (o : op) : meth :=
   | OToDF _ => MToDF | ODrop _ => MDrop | OGroupAgg _ _ => MGroupBy | OAgg _ => MAgg | OJoin _ _ => MJoin
   | OFillna _ => MFillna | ODropna => MDropna | ODropDuplicates _ => MDropDuplicates | OWhere _ => MWhere
   | OOrderBy _ => MOrderBy | OLimit => MLimit | ODistinct => MDistinct
+  | OOrderByItems _ => MOrderBy | OJoinOn _ _ _ => MJoin
   end.
 
 (** Spark-dialect keywords that sqlframe's orderBy cannot re-parse as a bare ordering key (definition of
@@ -143,11 +147,11 @@ Section Model.
     end.
 
   Definition arg_item (a : selarg) : item :=
-    match a with SStr x | SCol x => ident x | SAlias _ al => ident al end.
+    match a with SStr x | SCol x | SItem x => ident x | SAlias _ al => ident al end.
   Definition arg_disp (a : selarg) : name :=
     match a with
     | SStr x => if str_disp_raw c then x else attr x
-    | SCol x => if col_disp_ident c then attr x else x
+    | SCol x | SItem x => if col_disp_ident c then attr x else x
     | SAlias _ al => if alias_disp_raw c then al else attr al
     end.
   Definition arg_rec (a : selarg) : name * name := (qp (arg_item a), arg_disp a).
@@ -237,7 +241,10 @@ Section Model.
         (* d is self after groupBy's wrapper; the grouped data holds a copy, agg runs its own wrapper on it *)
         let p := pre_group d in
         let g := fst (fst p) in
-        Some (d, set_last (set_sel g (map arg_item keys ++ map ident aliases)) (snd (fst p)))
+        (* a key written df[x] was bound to the CTE open when groupBy ran; if agg's own wrapper freezes once more, the
+           qualified key points at a table that is no longer in the FROM: the engine raises *)
+        if snd p && existsb (fun a => match a with SItem _ => true | _ => false end) keys then None
+        else Some (d, set_last (set_sel g (map arg_item keys ++ map ident aliases)) (snd (fst p)))
     | OAgg aliases =>
         let r := record (rec_of c MAgg) (map alias_rec aliases) d in
         Some (fst r, set_sel (snd r) (map ident aliases))
@@ -253,6 +260,15 @@ Section Model.
     | OWhere _ | OLimit | ODistinct => Some (d, d)
     | OOrderBy vs =>
         if forallb (orderby_parses d) vs && forallb (orderby_binds d) vs then Some (d, d) else None
+    | OOrderByItems vs =>
+        (* the key is rendered table-qualified: it can only bind an input column of the FROM, never an alias of the
+           open SELECT *)
+        if forallb (fun v => negb (mem (norm (attr v)) kw_orderby) && mem (norm (attr v)) (map norm (base d))) vs
+        then Some (d, d) else None
+    | OJoinOn rnames _ _ =>
+        let lcols := map renorm (sel d) in
+        let rcols := map ident rnames in
+        Some (d, mkDf (map ident (map qp (lcols ++ rcols))) (dmap d) (last d) (base d ++ map text rcols) true)
     end.
 
   (** one call on a frame: (the receiver as the user sees it afterwards, the result) *)
